@@ -366,6 +366,12 @@ class DifferentialEvolutionHyperbandScheduler(SynchronousHyperbandCommon):
                     encoded_config = self._extended_config_by_mutation_crossover(
                         ext_slot
                     )
+                    if encoded_config is None:
+                        # Parent pool too small: draw config from searcher,
+                        # as at the very start
+                        encoded_config = self._encoded_config_from_searcher(
+                            trial_id
+                        )
             else:
                 # Draw encoded config at random
                 restore_searcher = self._searcher
@@ -456,9 +462,11 @@ class DifferentialEvolutionHyperbandScheduler(SynchronousHyperbandCommon):
 
     def _extended_config_by_mutation_crossover(
         self, ext_slot: ExtendedSlotInRung
-    ) -> np.ndarray:
-        ext_slot.do_selection = True
+    ) -> Optional[np.ndarray]:
         mutant = self._mutation(ext_slot)
+        if mutant is None:
+            return None
+        ext_slot.do_selection = True
         target_trial_id = self._get_target_trial_id(ext_slot)
         if self._debug_log is not None:
             logger.info(f"Target (cross-over): trial_id {target_trial_id}")
@@ -617,7 +625,7 @@ class DifferentialEvolutionHyperbandScheduler(SynchronousHyperbandCommon):
         slot_in_rung = ext_slot.slot_in_rung()
         self.bracket_manager.on_result((ext_slot.bracket_id, slot_in_rung))
 
-    def _mutation(self, ext_slot: ExtendedSlotInRung) -> np.ndarray:
+    def _mutation(self, ext_slot: ExtendedSlotInRung) -> Optional[np.ndarray]:
         bracket_id = ext_slot.bracket_id
         level = ext_slot.level
         assert bracket_id > 0
@@ -639,9 +647,10 @@ class DifferentialEvolutionHyperbandScheduler(SynchronousHyperbandCommon):
                     extra_pool = self._global_parent_pool[other_level]
                     global_pool = global_pool + extra_pool
                     pool_size += len(extra_pool)
-            # TODO: If this ever happens, have to do something else here. For
-            # example, could pick trial_id's which are still pending
-            assert pool_size >= 3, f"Cannot compose parent pool of size >= 3"
+            if pool_size < 3:
+                # Too few trials have results so far (this happens if many
+                # trials fail early on): no mutation possible
+                return None
         # Sample 3 entries at random from parent pool
         positions = list(self.random_state.choice(pool_size, 3, replace=False))
         is_base_rung = ext_slot.rung_index == 0
